@@ -63,6 +63,13 @@ def crowded_case(rng):
         else:
             for k in ("sizeup", "sizedown", "sizeside", "sizesame"):
                 o[k] = rng.choice([-1, 12, 20])
+    if rng.random() < 0.2:
+        # --dist-push over a long bin: more than a dozen reported targets at two or three distances, with ties
+        for k in ("sizetotal", "sizeup", "sizedown", "sizeside", "sizesame"):
+            o[k] = 0
+        o["distpush"] = rng.randint(2, 3)
+        b = rng.choice(["up", "down", "side"])
+        sup[b] = rng.randint(14, 26)
     ref, qs, ts = make_inputs_crowded(rng, sup)
     return ref, qs, ts, o
 
